@@ -364,8 +364,16 @@ class ManifestContext:
                 continue
             assert mf.content_type == 'video'
             assert mf.representation.content_type == 'video'
+            if (
+                    video.representations and
+                    video.representations[0].track_id != mf.representation.track_id):
+                # there is only one video AdaptationSet
+                logging.warning(
+                    'Skipping %s as its track ID is %d. Video AdaptationSet uses track %d',
+                    mf.name, mf.representation.track_id,
+                    video.representations[0].track_id)
+                continue
             video.representations.append(mf.representation)
-            assert video.representations[0].track_id == mf.representation.track_id
         video.compute_av_values()
         assert isinstance(video.representations, list)
         return video
